@@ -200,6 +200,12 @@ fn h2_client(front: SocketAddr, body: usize, nreq: usize, cw: u32) -> usize {
     }
     let mut ok = 0;
     let mut conn_win: i64 = 65535;
+    // sozu enlarges the connection window right after its SETTINGS: that WINDOW_UPDATE can arrive during the handshake
+    for f in &p.early {
+        if f.t == T_WU && f.sid == 0 && f.payload.len() == 4 {
+            conn_win += u32::from_be_bytes([f.payload[0], f.payload[1], f.payload[2], f.payload[3]]) as i64;
+        }
+    }
     for i in 0..nreq {
         let sid = 1 + 2 * i as u32;
         let mut win: i64 = 65535; // sozu's SETTINGS_INITIAL_WINDOW_SIZE (default) for our uploads
